@@ -53,6 +53,15 @@ pub fn record(seed: u64, nseeds: usize, out: &str, maxlen: i64) {
                          t.emit(json!({"op": "multiset", "what": "shuffle_two pairs", "n": m, "out": "ok", "sorted_in": pin, "sorted_out": po})) }
             None => t.emit(json!({"op": "multiset", "what": "shuffle_two pairs", "n": m, "out": "panic"})),
         }
+        // jackknife on repeated and special values: rows as token strings (leave-one-out by POSITION)
+        if m <= 12 {
+            let toks: Vec<String> = vals.iter().map(|v| tok(*v)).collect();
+            match guard(|| jackknife(&vals)) {
+                Some(rows) => t.emit(json!({"op": "jackknife_tokens", "n": m, "out": "ok", "input": toks,
+                    "rows": rows.iter().map(|r| r.iter().map(|v| tok(*v)).collect::<Vec<_>>()).collect::<Vec<_>>()})),
+                None => t.emit(json!({"op": "jackknife_tokens", "n": m, "out": "panic"})),
+            }
+        }
         // jackknife (small n: the result has n (n - 1) entries)
         if n <= 40 {
             match guard(|| jackknife(&data)) {
